@@ -232,7 +232,10 @@ def coords(case):
         halo = float(rng.choice([0.0, 0.4 * min(xmax / nx, ymax / ny)]))
         lv = [0, 3] if k % 3 else 4
         q0 = rng.normal(size=(ny, nx))
-        tup = dict(domain=(xmax, ymax), cells=(nx, ny), footprint=fp, halo=halo, levels=lv)
+        if k % 5 == 2:  # an all-zero source (night-time step) under a halo of one to three cells
+            q0 = np.zeros((ny, nx))
+            halo = float(rng.uniform(1.0, 3.5) * max(xmax / nx, ymax / ny))
+        tup = dict(domain=(xmax, ymax), cells=(nx, ny), footprint=fp, halo=halo, levels=lv, zero_source=bool(not q0.any()))
         try:
             g, c, f = S(q0, z, prof, (xmax, ymax), lv, halo=halo, precision="double", footprint=fp,
                         meas_pt=((nx // 2) * (xmax / nx), (ny // 2) * (ymax / ny)) if fp else (0.0, 0.0))
